@@ -146,6 +146,18 @@ func c01callSource(rng *rand.Rand, pool *Pool, e catEntry) (src string, shape st
 	var args, argFams []string
 	for i := 0; i < nargs; i++ {
 		a := pool.pick(rng, "")
+		if rng.Intn(4) == 0 {
+			// zero-like values of every type (0, 0.0, "", [], {}, nil, false, typed zeros of descendants)
+			var zs []*PoolVal
+			for _, v := range pool.Vals {
+				if v.Has("zero") {
+					zs = append(zs, v)
+				}
+			}
+			if len(zs) > 0 {
+				a = zs[rng.Intn(len(zs))]
+			}
+		}
 		args = append(args, a.Name)
 		argFams = append(argFams, a.Family)
 	}
@@ -441,7 +453,7 @@ func init() {
 			"fuel 300000 Eval calls / depth 20000 / 2 GiB heap / 20 s per case are the statement's 'bounded recursion depth and memory' provisos (inconclusive, never a verdict)",
 			"web/wasm/executor.go needs syscall/js; its execute() body is transcribed by interp.Run (same calls in the same order)",
 		},
-		CaseTimeout: 15 * time.Second,
+		CaseTimeout: 45 * time.Second,
 		Floor: func(m *fw.Merged) string {
 			if m.Counters["catalogue_calls"] < 3000 || m.Counters["grammar_programs"] < 1000 || m.Counters["mutants"] < 1000 || m.Counters["stdin_runs"] < 100 {
 				return fmt.Sprintf("observed too little: %v", m.Counters)
@@ -552,6 +564,41 @@ func runC01(w *fw.W) {
 		}
 		finish(b)
 	}
+	// infix / prefix operators: every operator over every ordered pair of pool values (exhaustive)
+	for _, op := range gInfix {
+		if !w.Take() {
+			continue
+		}
+		w.Begin("infix "+op+" over all pool pairs", map[string]any{"op": op})
+		b := newBatch()
+		t := interp.MustTemplate("x " + op + " y")
+		for _, x := range pool.Vals {
+			if x.Has("big") && (op == "*" || op == "**" || op == "<<") {
+				continue
+			}
+			for _, y := range pool.Vals {
+				if y.Has("big") && (op == "*" || op == "**" || op == "<<") {
+					continue // allocation-size territory (memory proviso)
+				}
+				w.Note(x.Src + " " + op + " " + y.Src)
+				o := ip.EvalT(t, map[string]object.PanObject{"x": x.Val, "y": y.Val}, 200000)
+				observe(b, x.Name+" "+op+" "+y.Name, o, "infix_pairs", "infix|"+op+"|"+x.Family+"|"+y.Family, true)
+			}
+		}
+		finish(b)
+	}
+	if w.Take() {
+		w.Begin("prefix operators over the pool", nil)
+		b := newBatch()
+		for _, op := range []string{"!", "-", "+", "/~"} {
+			t := interp.MustTemplate(op + "x")
+			for _, x := range pool.Vals {
+				o := ip.EvalT(t, map[string]object.PanObject{"x": x.Val}, 200000)
+				observe(b, op+x.Name, o, "prefix_calls", "prefix|"+op+"|"+x.Family, true)
+			}
+		}
+		finish(b)
+	}
 	// (2) grammar fuzzer
 	ng := w.Pick(30, 1000)
 	for k := 0; k < ng; k++ {
@@ -640,11 +687,14 @@ func runC01(w *fw.W) {
 		b := newBatch()
 		var lines []string
 		for i := 0; i < 25; i++ {
-			switch rng.Intn(8) {
+			switch rng.Intn(9) {
 			case 0:
 				lines = append(lines, "multi")
 			case 1:
 				lines = append(lines, "single")
+			case 3:
+				// lines that merely resemble the mode commands
+				lines = append(lines, []string{"Multi", "SINGLE", "Single", "MULTI", " multi", "multi ", "single;", "multi\t", "mul", "singles"}[rng.Intn(10)])
 			case 2:
 				lines = append(lines, "")
 			default:
@@ -707,7 +757,7 @@ func runC01(w *fw.W) {
 	}
 	// CLI cross-check: a seed-chosen sample of self-contained programs through the built binary
 	cli := os.Getenv("VERIF_CLI")
-	nc := w.Pick(6, 40)
+	nc := w.Pick(16, 100)
 	for k := 0; k < nc; k++ {
 		if !w.Take() {
 			continue
@@ -720,7 +770,7 @@ func runC01(w *fw.W) {
 		}
 		rng := w.Rand()
 		g := &gfuzz{rng: rng, pool: pool}
-		for i := 0; i < 25; i++ {
+		for i := 0; i < 8; i++ {
 			var src string
 			if i%2 == 0 {
 				src, _ = c01callSource(rng, pool, cat[rng.Intn(len(cat))])
@@ -732,7 +782,7 @@ func runC01(w *fw.W) {
 			f.WriteString(full)
 			f.Close()
 			w.Note(full)
-			cmd := exec.Command("timeout", "-s", "KILL", "20", cli, f.Name())
+			cmd := exec.Command("timeout", "-s", "KILL", "5", cli, f.Name())
 			cmd.Stdin = strings.NewReader("one\ntwo\n")
 			var stderr, stdout bytes.Buffer
 			cmd.Stderr, cmd.Stdout = &stderr, &stdout
